@@ -19,7 +19,8 @@ from zoneinfo import ZoneInfo
 import vlib
 
 STEM, EXT = "logfile", ".log"
-UNREL = ["logfile.yaml", "config_logfile", "other.log", "logfile_2.log"]
+UNREL = ["logfile_audit.1.log", "logfile.yaml", "config_logfile", "other.log", "logfile_2.log", "logfiles.7.log", "logfile_b.20240101.log",
+         "logfile_c.20240101_000000.log"]   # incl. names that merely START with the stem and end like a rotated file
 UNLIMITED = 9999
 SCHEME_NO = {"I": 0, "D": 1, "T": 2}
 FREQ_NO = {"N": 0, "D": 1, "H": 2, "M": 2}
